@@ -217,12 +217,58 @@ def check_ctx(eng, run):
                         outside.append(n)
         if outside:
             ok, why = False, "a caller-supplied SSLContext is modified"
+        # the hardening runs on every path through the default-context branch: between the clearing statement and that branch there
+        # are only `with` blocks (no nested condition such as `if not server_hostname:`)
+        if ok:
+            pm = {}
+            for p_ in ast.walk(fn.node):
+                for c_ in ast.iter_child_nodes(p_):
+                    pm[c_] = p_
+            x = cleared
+            while x in pm:
+                x = pm[x]
+                if isinstance(x, ast.If) and "isinstance(ssl, bool)" in ast.unparse(x.test):
+                    break
+                if isinstance(x, (ast.If, ast.For, ast.While, ast.ExceptHandler, ast.Match)) or (isinstance(x, ast.Try) and cleared not in [n_ for b in x.body for n_ in ast.walk(b)]):
+                    ok, why = False, f"the default TLS context is hardened (OP_IGNORE_UNEXPECTED_EOF cleared) only under `{ast.unparse(getattr(x, 'test', x))[:40]}`: on the other paths a truncated stream is reported as a clean end-of-stream"
+                    break
         if not ok:
             run.finding("C09.ctx", fn, outside[0] if outside else fn.node, why)
         run.ob("C09.ctx", fn.short, ok)
         facts[q] = ok
     same = len(set(facts.values())) == 1
     run.ob("C09.ctx", "sync~async", same)
+
+
+def check_ctx_global(eng, run):
+    """nobody weakens or edits a TLS context it does not own: every store to an SSLContext attribute (options, verify_mode,
+    check_hostname, ...) targets a context created in the same function, and OP_IGNORE_UNEXPECTED_EOF is never switched on"""
+    CTX_ATTRS = {"options", "verify_mode", "check_hostname", "minimum_version", "maximum_version", "verify_flags"}
+    n = 0
+    for fn in eng.db.all_functions():
+        if isinstance(fn.node, ast.Lambda) or not fn.module.name.startswith("easynetwork."):
+            continue
+        for st in own_nodes(fn.node):
+            if not isinstance(st, (ast.Assign, ast.AugAssign)):
+                continue
+            tg = st.targets if isinstance(st, ast.Assign) else [st.target]
+            for t in tg:
+                if not (isinstance(t, ast.Attribute) and t.attr in CTX_ATTRS):
+                    continue
+                owner = dotted(t.value) or ""
+                if not any(w in owner.lower() for w in ("ssl", "ctx", "context")):
+                    continue
+                n += 1
+                fresh = any(isinstance(a, ast.Assign) and any(dotted(x) == owner for x in a.targets) and isinstance(a.value, ast.Call)
+                            and (dotted(a.value.func) or "").split(".")[-1] in ("create_default_context", "SSLContext", "_create_unverified_context") and a.lineno < st.lineno
+                            for a in own_nodes(fn.node))
+                switches_on = isinstance(st, ast.AugAssign) and isinstance(st.op, ast.BitOr) and "OP_IGNORE_UNEXPECTED_EOF" in ast.unparse(st.value)
+                ok = fresh and not switches_on
+                if not ok:
+                    run.finding("C09.ctx", fn, st, (f"`{ast.unparse(st)[:70]}` switches OP_IGNORE_UNEXPECTED_EOF on" if switches_on else f"`{ast.unparse(st)[:70]}` edits `{owner}`, a context this function did not create") +
+                                ": the setting stays on the caller's (shared) SSLContext, so later standard-compatible connections made from it report a truncated stream as a clean end-of-stream")
+                run.ob("C09.ctx", f"{fn.short}:{owner}.{t.attr}:own-context-only", ok)
+    run.floor("C09.ctx stores to TLS context attributes", n, 4)
 
 
 def check_cli(eng, run):
@@ -333,6 +379,7 @@ def run(eng, run):
     check_ragged(eng, run)
     check_notify(eng, run)
     check_ctx(eng, run)
+    check_ctx_global(eng, run)
     check_cli(eng, run)
     check_default(eng, run)
     check_flush_shared(eng, run)
@@ -403,4 +450,24 @@ MUTANTS += [
             "C09.notify", why="our close_notify produced by a successful unwrap() is never sent (seed C09-5)"),
     Variant("want-read-flush-under-recv-lock", _RETRY, _flush_inside_recv_lock, "C09.notify",
             why="a task parked in recv() holds the recv lock: aclose()'s close_notify is never flushed (seed C09-4)"),
+]
+
+_TCPI = "clients.tcp:TCPNetworkClient.__init__"
+
+
+def _hardening_under_hostname_test(fn):
+    iff = next(n for n in ast.walk(fn) if isinstance(n, ast.If) and "isinstance(ssl, bool)" in ast.unparse(n.test))
+    w = next(s for s in iff.body if isinstance(s, ast.With) and "OP_IGNORE_UNEXPECTED_EOF" in ast.unparse(s))
+    inner = next(s for s in iff.body if isinstance(s, ast.If) and "server_hostname" in ast.unparse(s.test))
+    iff.body.remove(w)
+    inner.body.append(w)
+
+
+MUTANTS += [
+    Variant("default-context-hardened-only-without-hostname", _TCPI, _hardening_under_hostname_test, "C09.ctx",
+            why="indentation slip: with a server_hostname the default context keeps OP_IGNORE_UNEXPECTED_EOF (seed C09-8)"),
+    Variant("wrap-switches-ignore-eof-on-the-callers-context", _A + ".wrap",
+            lambda fn: fn.body.insert(next(i for i, s in enumerate(fn.body) if not (isinstance(s, ast.Expr) and isinstance(s.value, ast.Constant))),
+                                      ast.parse("if not standard_compatible:\n    ssl_context.options |= _ssl_module.OP_IGNORE_UNEXPECTED_EOF").body[0]),
+            "C09.ctx", why="the option stays on the shared context: later standard-compatible transports read truncation as EOF (seed C09-7)"),
 ]
